@@ -35,7 +35,7 @@ CHECKS = {
          "Merge functions are associative and lone-preserving as the property assumes. rayon schedules are sampled (thread counts, oversubscription; TSan in thorough), not controlled."),
  "C08": ("exploration", "4.C08", "online monitor over insert/create/drop events of a monitored chunk creator (conservation of unspilled volume, live-chunk count) plus hook H3 spill detection",
          "Running sum of bytes inserted since the last create must stay <= 2T (T without reallocation), live chunks <= max_nb_chunks+2 at every create, and every buffer emptying must coincide with a create on the supplied creator; 20-200 x T inserted with entries <= T/4, real 10 MiB runs included.",
-         "Entry size <= T/4; initial capacity <= T. Heap high-water is recorded, not judged."),
+         "Entry size <= T/4; initial capacity <= T. max_nb_chunks(0) is read as its effective value 1. Heap high-water is not judged."),
  "C09": ("exploration", "4.C09", "independent format decoder (own varint/block/trailer/tree-walk code) + differential testing against the frozen grenad 0.4.7 reader and writer",
          "Every structural sentence of the property is checked by a decoder sharing no code with grenad; the 0.4.7 reader must recover current files and the current reader 0.4.7 files, for all six codecs.",
          "Codec crates are shared between library, decoder and 0.4.7. The decoder itself is trusted (validated against 0.4.7 output)."),
@@ -58,7 +58,7 @@ CHECKS = {
          "For each data block and index block at depth >= 2: size without its final entry < B, and size >= B unless last of its level, B = max(configured,1024); workloads aim entry sizes at B.",
          "Depth-0/1 blocks are measured, never judged. Files must be decodable (C09)."),
  "C16": ("exploration", "4.C16", "online checker over the read trace of a monitored source, windowed per public call (block loads counted at block start offsets from the independent decoder)",
-         "Reader::new reads only the final 22 bytes (<= 44 bytes); each cursor operation loads <= 2 x (levels+2) blocks and reads no more bytes than those blocks hold, along generated histories on files up to 2x10^5 (thorough 2x10^6) entries and levels 0..255.",
+         "Reader::new reads only the final 22 bytes (<= 44 bytes); each cursor operation loads <= 2 x (levels+2) blocks and reads no more bytes than those blocks hold plus a fixed 64 KiB read-ahead allowance per load, along generated histories on files up to 4x10^5 (thorough 2x10^6) entries, every codec, and levels 0..255.",
          "A load is a read starting at a block's first byte."),
  "C17": ("exploration", "4.C17", "sanitizers and UB interpreter: instrumented global allocator (guard bands, layout check at dealloc, poisoning, leak accounting), Miri (default and tree borrows), ASan/LSan, TSan, valgrind memcheck, overflow-checked build, all over a buffer-state-steered workload with model comparison",
          "Insert sizes chosen from the live buffer state to fill it exactly / miss by one / exceed it, both reallocation policies, spills, merges, three routes; reader/merger paths with every borrowed slice fully read before the next call. quick = guard allocator + 16 Miri processes; thorough adds tree borrows, 64 Miri processes, ASan, TSan, valgrind.",
@@ -100,7 +100,7 @@ def main():
         }],
         "checks": checks,
         "not_applicable": [],
-        "notes": "Technique family: runtime monitoring and sanitizers. Exit codes: 0 held, 1 violation (VIOLATION line + replay file), 2 inconclusive (never folded into the others). Known findings: /verif/KNOWN_FINDINGS.txt (three genuine defects, all repaired by fix: commits in /repo). VERIF_SEED seeds the random part of every workload; VERIF_SCALE (percent) scales it.",
+        "notes": "Technique family: runtime monitoring and sanitizers. Exit codes: 0 held, 1 violation (VIOLATION line + replay file), 2 inconclusive (never folded into the others). Known findings: /verif/KNOWN_FINDINGS.txt (three genuine defects, all repaired by fix: commits in /repo). Self-validation: mutants/RESULTS.md, seeded/MATRIX.md (107 independently seeded breaking changes, all caught; 24 property-preserving changes, all silent). VERIF_SEED seeds the random part of every workload; VERIF_SCALE (percent) scales it.",
     }
     with open(os.path.join(VERIF, "MANIFEST.json"), "w") as f:
         json.dump(m, f, indent=1)
